@@ -45,6 +45,8 @@ def gen_case(rng, mode, corrupt):
     meta = []   # per packet: (offset, slot, nwords)
     off = rng.choice([0, 0x1000, 0x7FFF0])
     for pg in range(npk):
+        if rng.random() < 0.3:
+            fmt = 2 - fmt      # the format may change between packets of a link
         n = rng.randrange(1, 14)
         ws = [rand_word(rng, corrupt) for _ in range(n)]
         # keep the payload inside the guards of C12 (no 0xFF last byte, bytes 10..15 not all zero for format 2)
